@@ -121,7 +121,7 @@ class lldp (packet_base):
     type = typelen >> 9
     length = typelen & 0x01ff
 
-    if len(array) < length:
+    if len(array) < 2 + length:
       self.msg('(lldp tlv parse) warning TLV data too short to parse (%u)'
                % (len(array),))
       return
